@@ -18,6 +18,8 @@ import (
 
 	badger "github.com/dgraph-io/badger/v2"
 	uuid "github.com/satori/go.uuid"
+	"google.golang.org/grpc"
+	"google.golang.org/grpc/connectivity"
 )
 
 const maxBatchRequestSize int = 100
@@ -47,6 +49,10 @@ type Dataset struct {
 	searchClientsMu      *sync.RWMutex
 	dataManagerClients   map[uint64]pb.DataManagerClient
 	dataManagerClientsMu *sync.RWMutex
+	// The connection each cached client was built on (guarded by the client map's mutex):
+	// cluster.Conn closes a node's connection when the node leaves
+	searchClientConns      map[uint64]*grpc.ClientConn
+	dataManagerClientConns map[uint64]*grpc.ClientConn
 }
 
 func newDataset(id uuid.UUID, meta pb.Dataset, raftWalDB *badger.DB, raftTransport *raft.RaftTransport, clusterConn *cluster.Conn, datasetManager *DatasetManager) (*Dataset, error) {
@@ -61,6 +67,9 @@ func newDataset(id uuid.UUID, meta pb.Dataset, raftWalDB *badger.DB, raftTranspo
 		searchClientsMu:      &sync.RWMutex{},
 		dataManagerClients:   make(map[uint64]pb.DataManagerClient),
 		dataManagerClientsMu: &sync.RWMutex{},
+
+		searchClientConns:      make(map[uint64]*grpc.ClientConn),
+		dataManagerClientConns: make(map[uint64]*grpc.ClientConn),
 	}
 
 	for i := 0; i < int(meta.GetPartitionCount()); i++ {
@@ -696,6 +705,7 @@ func (this *Dataset) getNodeSearchClient(ctx context.Context, nodeId uint64) (pb
 	defer this.searchClientsMu.Unlock()
 
 	this.searchClients[nodeId] = pb.NewSearchClient(conn)
+	this.searchClientConns[nodeId] = conn
 	return this.searchClients[nodeId], nil
 }
 
@@ -704,6 +714,11 @@ func (this *Dataset) getCachedNodeSearchClient(nodeId uint64) pb.SearchClient {
 	defer this.searchClientsMu.RUnlock()
 
 	if client, exists := this.searchClients[nodeId]; exists {
+		if conn, built := this.searchClientConns[nodeId]; built && conn.GetState() == connectivity.Shutdown {
+			// The node has left since (its connection was closed): should it have
+			// joined again, it is reached through a new connection
+			return nil
+		}
 		return client
 	}
 	return nil
@@ -724,6 +739,7 @@ func (this *Dataset) getDataManagerClient(ctx context.Context, nodeId uint64) (p
 	defer this.dataManagerClientsMu.Unlock()
 
 	this.dataManagerClients[nodeId] = pb.NewDataManagerClient(conn)
+	this.dataManagerClientConns[nodeId] = conn
 	return this.dataManagerClients[nodeId], nil
 }
 
@@ -732,6 +748,9 @@ func (this *Dataset) getCachedDataManagerClient(nodeId uint64) pb.DataManagerCli
 	defer this.dataManagerClientsMu.RUnlock()
 
 	if client, exists := this.dataManagerClients[nodeId]; exists {
+		if conn, built := this.dataManagerClientConns[nodeId]; built && conn.GetState() == connectivity.Shutdown {
+			return nil
+		}
 		return client
 	}
 	return nil
